@@ -125,6 +125,29 @@ func (w *world) verifyFunc(con *Contract, fn *ssa.Function, mode string, variant
 		st.assume(g.t.s)
 	}
 	x.pre = st.clone()
+	for i, cl := range con.Requires {
+		vars := skolemVarsOf(con, cl.Expr)
+		if len(vars) == 0 {
+			continue
+		}
+		cl := cl
+		x.reqFacts = append(x.reqFacts, &univFact{id: fmt.Sprintf("req:%d", i), vars: vars, eval: func(cur *state) string {
+			pc := x.pre.clone()
+			np := len(pc.pc)
+			g := x.clauseL1(pc, con, cl, penv)
+			for _, f := range pc.pc[np:] {
+				if f.def {
+					cur.define(f.t)
+				}
+			}
+			for id, v := range pc.cells {
+				if _, ok := cur.cells[id]; !ok {
+					cur.cells[id] = v
+				}
+			}
+			return g.t.s
+		}})
+	}
 	// vacuity guard: the precondition must be satisfiable
 	x.obls = append(x.obls, &obligation{Name: con.Target + "/cover[requires-satisfiable]", Kind: "cover", Pc: st.pcStrings(), Goal: "false", Decls: len(x.decls)})
 	outs := x.run(st, fr, fn.Blocks[0], 0, nil)
@@ -242,10 +265,16 @@ func (x *ctx) setupConformance(variant *types.Named) {
 
 // frameObligations: every heap key changed by the function must be covered by its modifies clause.
 func (x *ctx) frameObligations(st *state, con *Contract, penv envFn, ret val) {
+	x.frameCheck(st, nil, x.pre, con, con.Mods, penv, ret, "frame", nil)
+}
+
+// frameCheck: every heap key whose version differs between base (nil: the initial heap) and st must be covered by mods
+// (their location arguments are evaluated in evalPre).
+func (x *ctx) frameCheck(st, base, evalPre *state, con *Contract, mods []*ModItem, penv envFn, ret val, kind string, exempt func(string) bool) {
 	whole := map[string]bool{}
 	allowAll := false
 	locs := map[string][]string{} // key -> index terms allowed to change
-	for _, mi := range con.Mods {
+	for _, mi := range mods {
 		switch mi.Kind {
 		case "whole":
 			if mi.Type == "*" {
@@ -263,7 +292,7 @@ func (x *ctx) frameObligations(st *state, con *Contract, penv envFn, ret val) {
 			whole[mi.Field] = true
 		case "mapof":
 			f := x.synth(con, mi.ArgFns[0])
-			v := x.evalSpecFn(x.pre, f, nil, x.bindArgs(f, nil, penv))
+			v := x.evalSpecFn(evalPre, f, nil, x.bindArgs(f, nil, penv))
 			for k := range x.hinfo {
 				if strings.HasPrefix(k, "G:mapP_") || strings.HasPrefix(k, "G:mapV_") || k == "G:mapN" {
 					locs[k] = append(locs[k], v.t.s)
@@ -281,7 +310,7 @@ func (x *ctx) frameObligations(st *state, con *Contract, penv envFn, ret val) {
 			}
 			// nested ghost locations: allowed to change at the first index only (coarse)
 			f := x.synth(con, mi.ArgFns[0])
-			v := x.evalSpecFn(x.pre, f, nil, x.bindArgs(f, nil, penv))
+			v := x.evalSpecFn(evalPre, f, nil, x.bindArgs(f, nil, penv))
 			if len(mi.ArgFns) == 1 {
 				locs[x.ghostKey(mi.Ghost)] = append(locs[x.ghostKey(mi.Ghost)], v.t.s)
 			} else {
@@ -289,7 +318,7 @@ func (x *ctx) frameObligations(st *state, con *Contract, penv envFn, ret val) {
 			}
 		case "field":
 			f := x.synth(con, mi.ArgFns[0])
-			v := x.evalSpecFn(x.pre, f, nil, x.bindArgs(f, nil, penv))
+			v := x.evalSpecFn(evalPre, f, nil, x.bindArgs(f, nil, penv))
 			bt := x.modBaseType(f)
 			if x.isNodeIface(bt) {
 				k := x.akey("G:" + mi.Field)
@@ -309,7 +338,7 @@ func (x *ctx) frameObligations(st *state, con *Contract, penv envFn, ret val) {
 			}
 		case "elems", "elem":
 			f := x.synth(con, mi.ArgFns[0])
-			v := x.evalSpecFn(x.pre, f, nil, x.bindArgs(f, nil, penv))
+			v := x.evalSpecFn(evalPre, f, nil, x.bindArgs(f, nil, penv))
 			bt := x.modBaseType(f)
 			if sl, ok := bt.Underlying().(*types.Slice); ok {
 				locs[x.elemKey(sl.Elem())] = append(locs[x.elemKey(sl.Elem())], v.t.s)
@@ -325,7 +354,7 @@ func (x *ctx) frameObligations(st *state, con *Contract, penv envFn, ret val) {
 	}
 	sort.Strings(keys)
 	for _, k := range keys {
-		if whole[k] || frameExempt(k) {
+		if whole[k] || frameExempt(k) || (exempt != nil && exempt(k)) {
 			continue
 		}
 		if j := strings.Index(k, "."); j > 0 && whole[k[:j]+".*"] {
@@ -336,6 +365,11 @@ func (x *ctx) frameObligations(st *state, con *Contract, penv envFn, ret val) {
 		}
 		cur := st.heap[k]
 		init := x.initialName(k)
+		if base != nil {
+			if b, ok := base.heap[k]; ok {
+				init = b
+			}
+		}
 		if cur == init {
 			continue
 		}
@@ -358,19 +392,21 @@ func (x *ctx) frameObligations(st *state, con *Contract, penv envFn, ret val) {
 			if len(hi.ksorts) > 0 || strings.HasPrefix(k, "G:") {
 				srt = ghostSort(hi)
 			}
-			x.declare(init, srt)
+			if init == x.initialName(k) {
+				x.declare(init, srt)
+			}
 		}
 		allowed := init
 		if hi := x.hinfo[k]; (strings.HasPrefix(k, "G:") && len(hi.ksorts) >= 1 && hi.ksorts[0] == sRef) || !strings.HasPrefix(k, "G:") {
 			// objects allocated by this function are not part of the caller's frame
-			for _, a := range x.allocated {
+			for _, a := range x.allocated[x.allocFrom:] {
 				allowed = fmt.Sprintf("(store %s %s (select %s %s))", allowed, a.s, cur, a.s)
 			}
 		}
 		for _, l := range locs[k] {
 			allowed = fmt.Sprintf("(store %s %s (select %s %s))", allowed, l, cur, l)
 		}
-		x.oblige(st, "frame", k, "", fmt.Sprintf("(= %s %s)", cur, allowed), "location written but not listed in modifies")
+		x.oblige(st, kind, k, "", fmt.Sprintf("(= %s %s)", cur, allowed), "location written but not listed in modifies")
 	}
 }
 
